@@ -1,0 +1,82 @@
+//go:build verif
+
+package immutable
+
+import (
+	"fmt"
+
+	"github.com/openGemini/openGemini/lib/record"
+)
+
+// Hooks for the verification harness (/verif, property C07). Compiled only with the `verif`
+// build tag. They expose the segment-level column framing of a flush — the chunk encoder that
+// MsBuilder.WriteData runs (TsChunkDataImp.EncodeChunk: column builder, one-value form, column
+// header, block codecs) and the per-segment reader of the file reader (decodeColumnData /
+// appendTimeColumnData) — on in-memory records, so that the harness can compare the exact bytes
+// of every segment and what the reader makes of them.
+
+// VerifC07Segment is one encoded column segment of a chunk.
+type VerifC07Segment struct {
+	Pos  int    // len(chunk buffer) when the segment was started (the block codecs see it as len(out))
+	Data []byte // the segment's bytes (entry offset/size of the column meta)
+}
+
+// VerifC07Chunk is an encoded chunk: per schema column (time last) its segments.
+type VerifC07Chunk struct {
+	Chunk []byte
+	Cols  [][]VerifC07Segment
+}
+
+// VerifC07EncodeChunk encodes rec the way a flush does (series id sid, chunk written at file
+// offset `offset`, segments of at most maxRowsPerSegment rows).
+func VerifC07EncodeChunk(rec *record.Record, sid uint64, maxRowsPerSegment int, offset int64) (*VerifC07Chunk, error) {
+	b := NewChunkDataBuilder(maxRowsPerSegment, 1<<16)
+	b.chunkMeta = &ChunkMeta{}
+	imp := &TsChunkDataImp{}
+	chunk, err := imp.EncodeChunk(b, sid, offset, rec, nil, true)
+	if err != nil {
+		return nil, err
+	}
+	out := &VerifC07Chunk{Chunk: chunk}
+	cm := b.chunkMeta
+	for i := range cm.colMeta {
+		var segs []VerifC07Segment
+		for _, e := range cm.colMeta[i].entries {
+			off, size := e.OffsetSize()
+			p := int(off - offset)
+			if p < 0 || p+int(size) > len(chunk) {
+				return nil, fmt.Errorf("column %d: segment entry (%d,%d) outside the chunk of %d bytes at %d", i, off, size, len(chunk), offset)
+			}
+			segs = append(segs, VerifC07Segment{Pos: p, Data: chunk[p : p+int(size)]})
+		}
+		out.Cols = append(out.Cols, segs)
+	}
+	return out, nil
+}
+
+// VerifC07DecodeSegment decodes one column segment with the file reader's per-segment decoder
+// (appendTimeColumnData for the time column, decodeColumnData otherwise), ascending order.
+func VerifC07DecodeSegment(ref *record.Field, data []byte, isTime bool) (*record.ColVal, error) {
+	ctx := NewReadContext(true)
+	defer ctx.Release()
+	col := &record.ColVal{}
+	var err error
+	if isTime {
+		err = appendTimeColumnData(data, col, ctx, true)
+	} else {
+		err = decodeColumnData(ref, data, col, ctx, true)
+	}
+	if err != nil {
+		return nil, err
+	}
+	// detach from the context's pooled buffers
+	out := &record.ColVal{
+		Val:          append([]byte(nil), col.Val...),
+		Offset:       append([]uint32(nil), col.Offset...),
+		Bitmap:       append([]byte(nil), col.Bitmap...),
+		BitMapOffset: col.BitMapOffset,
+		Len:          col.Len,
+		NilCount:     col.NilCount,
+	}
+	return out, nil
+}
